@@ -271,6 +271,7 @@ def run(ctx):
     ctx.rule("C03-R6", "noise generators and filter state are built from constants and parameters only")
     ctx.rule("C03-R7", "every Condition / InterporationWeight setter stores a value independent of the previous state and writes exactly one field")
     ctx.rule("C03-R8", "Clone impls of Engine, Condition, VoiceSet, InterporationWeight, Weights are derived (field-wise)")
+    ctx.rule("C03-R9", "no hidden condition state: every setting a setter writes is returned verbatim by its getter, so conditions with equal getter values are equal (a history like `never set` vs `set to the default` cannot be told apart by synthesis)")
     ctx.rule("controls", "each zero-count rule flags its deliberate instance in /verif/fixtures/controls")
 
     # ---- positive controls first
@@ -443,6 +444,10 @@ def run(ctx):
                     ctx.fail("C03-R7", path, kind, why, b.loc())
             else:
                 ctx.ok("C03-R7", "%s writes only %s, value independent of previous state" % (path, fields), b.loc())
+
+        # R9 (the rule C20-R2 decides, stated for C03's purpose)
+        from .c20 import getters_verbatim
+        getters_verbatim(ctx, p, "C03-R9")
 
         # R8
         for ty in ("engine::Engine", "engine::Condition", "model::voice_set::VoiceSet",
